@@ -34,6 +34,8 @@ func run(e *harness.Env) {
 		"deep = depth-4 skeleton with 3 leaf slots over the full alphabet, all choice vectors with <=2 (quick) / <=3 (thorough) deviations from the plain case; " +
 		"prog = every operator program of length<=2 over the 70 operators of Annex A without BI/ID/EI x 3 operand variants x policy, thorough adds every program of length 3 x 1 rotating variant x 3 whitespace/comment policies x {lit,hexodd}; " +
 		"hex = hexadecimal-string spellings enumerated directly (coverage key hex_space: 0..5 digits x white space at one gap / two gaps / every gap incl. inside a pair and before '>', all six white bytes and all pairs of two) x contexts (quick 5, thorough 13) x whitespace policy, both parsers; " +
+		"rep = 14 unit kinds (dict, dict in array, dict in dict, arrays, strings, hex strings, names, numbers, keywords, references) repeated N in {257,300,1000} times (crossing the parsers' 256 nesting limit and the 4096-byte buffer) as one array, as the values of one dict and as a sequence of top-level objects / operations in one stream x 6 policies incl. a comment after every token; " +
+		"runs = 12 multi-token constructs (n g R, n g obj .. endobj via ParseIndirectObject, dict key/value, array elements, stream keyword) x runs of 1..3 consecutive comments in each single token gap and in every gap at once x EOL x ws{min,sp}; " +
 		"big = 6 long structures (1500-member array over all leaves, 400-key dict, 9000-byte string + 119-byte name, 3000 one-digit ints ending in references, nesting depth 40) x policy; " +
 		fmt.Sprintf("quirk = %d mostly illegal operand spellings x 3 tails, differential only (both parsers accept => equal value). ", len(quirks)) +
 		"Policy = whitespace{sp,min,nl,mix of all six white bytes} x comments{off,sep,all=also inside n g R} x EOL{LF,CR,CRLF} x " +
@@ -48,7 +50,7 @@ func run(e *harness.Env) {
 	for _, sp := range []struct {
 		name string
 		f    func(*harness.Env)
-	}{{"leaf", leafSpace}, {"tree", treeSpace}, {"prog", progSpace}, {"hex", hexSpace}, {"deep", deepSpace}, {"big", bigSpace}, {"quirk", quirkSpace}} {
+	}{{"leaf", leafSpace}, {"tree", treeSpace}, {"prog", progSpace}, {"hex", hexSpace}, {"rep", repSpace}, {"runs", runsSpace}, {"deep", deepSpace}, {"big", bigSpace}, {"quirk", quirkSpace}} {
 		if only == "" || only == sp.name {
 			sp.f(e)
 		}
@@ -72,6 +74,9 @@ func errClass(err error) string {
 	}
 	if i := strings.LastIndex(s, ": "); i >= 0 && i+2 < len(s) && len(s)-i < 8 {
 		s = s[:i] // drop a trailing ": <char>"
+	}
+	if i := strings.Index(s, ", got "); i >= 0 {
+		s = s[:i] // what was found instead is varying data
 	}
 	s = reNum.ReplaceAllString(s, "N")
 	s = strings.NewReplacer("at position N: ", "", " at position N", "", "'", "", "\"", "").Replace(s)
